@@ -56,7 +56,7 @@ def make_res(rng):
     lines = text.rstrip('\n').split('\n')
     if not any(l.upper().startswith(('L.S.', 'CGLS')) for l in lines):      # a refinement job has a cycles instruction
         fv = [i for i, l in enumerate(lines) if l.upper().startswith('FVAR')][0]
-        lines.insert(fv, rng.choice(['L.S. 10', 'CGLS 5', 'L.S. 4 0 2']))
+        lines.insert(fv, rng.choice(['L.S. 10', 'CGLS 5', 'L.S. 4 0 2', 'L.S. 10 0 12', 'CGLS 8 0 3', 'L.S. 6 2']))
     return '\n'.join(lines) + '\n'
 
 
@@ -309,6 +309,17 @@ def run(ctx):
                     common.add_violation(ctx, 'the .ins file does not carry the requested number of cycles', case, cycles, cyc[-1])
                     continue
                 exp = [t for t in (l['tokens'] for l in rf.independent_lex(text) if l['tokens']) if not t[0].upper().startswith('ACTA')]
+                # the other parameters of the cycles instruction (nrf, nextra) are those of the model
+                exp_cyc = [t for t in exp if t[0].upper() in ('L.S.', 'CGLS')]
+                if cyc and exp_cyc:
+                    pad = lambda t: ([float(x) for x in t[2:4]] + [0.0, 0.0])[:2]
+                    try:
+                        same_rest = pad(cyc[-1]) == pad(exp_cyc[-1])
+                    except ValueError:
+                        same_rest = False
+                    if not same_rest:
+                        common.add_violation(ctx, 'the cycles instruction of the .ins file differs from the model in nrf / nextra', case, exp_cyc[-1], cyc[-1])
+                        continue
                 if [t[0].upper() for t in keys_coalesced(toks)] != [t[0].upper() for t in keys_coalesced(exp)]:
                     common.add_violation(ctx, 'the .ins file is not the current model (instruction sequence differs)', case, [t[0] for t in keys_coalesced(exp)][:30], [t[0] for t in toks][:30])
                     continue
